@@ -221,6 +221,18 @@ def run_shard(ctx, spec):
     arbitrary += [''.join(rnd.choice(chars) for _ in range(rnd.randrange(1, 6))) for _ in range(175)]
     labels = sorted(set(labels)) + arbitrary
     ctx.info['labels'] = len(labels)
+    if spec.get('prelude') == 'respelled-first':
+        # history: in this process every question is first asked in other spellings (lower case, padded, swapped case) and
+        # only then properly - an answer remembered under a folded key would be served to the proper spelling afterwards
+        for e in THROWS:
+            for g in ('M', 'F'):
+                for ag in labels:
+                    for (e2, g2, a2) in ((e, g, ag.lower()), (e.lower(), g, ag), (e, g.lower(), ag), (e, g, ag + ' '), (e, g, ' ' + ag),
+                                         (e.lower(), g.lower(), ag.lower()), (e, g, ag.swapcase()), (e.title(), g, ag.title())):
+                        if (e2, g2, a2) != (e, g, ag):
+                            attach.call(mon.weight, e2, g2, a2)
+                            attach.call(mon.spec, e2, g2, a2)
+                            ctx.count('eval.respelled-before-the-proper-spelling')
     for e in THROWS:
         for g in ('M', 'F'):
             for ag in labels:
@@ -287,7 +299,7 @@ def run_shard(ctx, spec):
 
 
 def shards(tier, seed):
-    return [{'i': 0}]
+    return [{'i': 0}, {'i': 1, 'prelude': 'respelled-first'}]
 
 
 def replay(ctx, cases):
